@@ -22,6 +22,21 @@ CLAIMED = {
     "C08": ("TLA+ spec (Grouping.tla) with the greedy assembly transcribed as coded and model-checked against connected components (TLC); real match_candidates_sample / PAFScorer.predict outputs judged by TLC against OptAssign and ValidGrouping with the observed line scores",
             "Design: for every rooted labelled tree <= 4 nodes, every parent-first edge order, <= 2 peaks per node and every accepted one-to-one match set, the as-coded assembly loop yields exactly the connected components with at most one peak per node (TLC exhaustive, 220k states); with a non parent-first order TLC refutes it (C17 is load-bearing). Code: all score matrices over {NaN,-2,0,1,3} up to 2x2/1x3 plus sampled 3x3 through match_candidates_sample, and seeded random PAFScorer.predict scenes (coincident peaks, peaks outside the PAF extent, empty samples, all scorer parameters); TLC checks per-edge optimality of the observed matches and that the returned instances are the partition into components with the right scores and filter.",
             "Trusts TLC, the 2^-16 score quantisation with stated slack; line-score geometry itself is C03's subject; non-tree skeletons out of scope.", "4 (C08/C17)"),
+    "C19": ("TLA+ spec (TrainRun.tla) of the write order of a training run with Crash enabled in every state, model-checked with TLC (intended ordering holds, the ordering transcribed from the pinned code must violate); real ModelTrainer runs observed at every file-write boundary by an audit hook and validated by Trace_TrainRun",
+            "Design: for all 64 configurations and every crash point, the intended write order never leaves the key on disk and a completed run leaves the documented artifacts; the as-coded order of the pinned commit is refuted by TLC (documented deviation, now repaired). Code: real ModelTrainer(cfg)+train() runs (pairwise-covering subset quick, all 64 thorough; structured and plain; wandb offline) in separate processes under an audit hook that scans the output/chunk directories at every write/rename/remove boundary - every such disk state is a possible post-crash state; TLC requires NoKeyOnDisk in each, and completion, artifacts, initial = supplied and final = used configuration at the end.",
+            "Trusts TLC, the audit hook (torch's C++ checkpoint writer is seen at the next boundary), 1-step CPU runs on the repository's asset; litdata, online wandb, multi-GPU, torn single writes not covered.", "4 (C19)"),
+    "C01": ("TLA+ definition of the right confidence map on an integer lattice (Targets.tla) checked by TLC on an exhaustive family; real generate_confmaps / generate_multiconfmaps / generator classes run on the same exhaustive family plus seeded frames, every cell judged by TLC in the log domain",
+            "Design: on every quarter-pixel keypoint placement around a 4x4 image x strides x sigmas x variants the ideal map satisfies the clause, the nearest cell is the argmin of the squared distance and corruptions (x/y swap, unscaled sigma, half-cell grid, first animal only) are rejected (TLC, ~10^5 states). Code: the real functions run on that exhaustive family (set equality with the model's space checked by TLC), all NaN patterns of 2 animals x 2 nodes, batches, and seeded random frames up to 5 animals x 6 nodes; TLC judges every cell (implied squared distance within stated slack, zero/NaN/range/argmax/shape clauses).",
+            "Trusts TLC, the log-domain projection with slack |L-D| <= 1 + D/10^4, float32 exp; sigma in {1/2,1,3/2,5/2}; sides multiples of the stride.", "4 (C01/C05)"),
+    "C05": ("TLA+ definition of the right part-affinity field on a half-pixel lattice (Targets.tla) checked by TLC; real generate_pafs / PartAffinityFieldsGenerator run on the exhaustive pair family plus seeded frames, every cell judged by TLC",
+            "Design: exact integer segment-distance lemmas and acceptance of an exact ideal field for all source/destination pairs on the half-pixel lattice of a 4x4 image; named corruptions are rejected (TLC). Code: the real functions on all 57,800 pair cases (set equality checked by TLC), all 3^6 NaN patterns of 2 animals x 3 nodes x 2 edges, zero animals and seeded random frames; TLC judges direction (parallel, not anti-parallel), magnitude in [0,1], 1 on the segment, monotone in exact distance, exact zeros, additivity over animals, channel layout and shape.",
+            "Trusts TLC and the 1e-4 quanta with stated slack; sub-pixel edges, the margin strip (unspecified by the property) and the weight profile beyond monotonicity are not judged.", "4 (C01/C05)"),
+    "C04": ("TLA+ spec (Geometry.tla) of the geometric stages with as-coded arithmetic, model-checked over the configuration grid (exact size/padding clauses hold; Registered over the whole grid must be violated = the known drift); real functional API and the four Dataset classes run on coordinate-coded images, each stage boundary a trace event with the content affine fitted by least squares, validated by Trace_Geometry",
+            "Design: 17,904 configurations of sizes x max sizes x scales x strides x crops x anchors x pipelines: exact size, bottom/right padding, crop-centred and crop-size clauses hold everywhere, Registered holds on the sub-grid of exact ratios and TLC finds the >1 px drift elsewhere before any code runs. Code: every exported configuration through the real functions/datapipes and real kornia augmentation, and the four real Dataset classes end to end with stage functions wrapped; the image content's affine is measured, never read from the code; TLC judges registration, sizes, padding side, keypoint bit-identity under intensity augmentation, gray vs RGB.",
+            "Trusts TLC, the content fit (residual-checked), 1/16 px slack; np_chunks, erase/mixup, images > 256 px not covered. Two known findings (resize drift, kornia non-square warp) are listed in known_findings.json.", "4 (C04)"),
+    "C20": ("TLA+ spec (Config.tla): argument->path map, augmentation list as a state machine (as coded vs intended) and normalise/save/load as functions, model-checked with TLC over all ordered lists; every exported builder case run on the real builders and judged by TLC against Expected(case)",
+            "Design: over all 326 geometric and 65 intensity ordered lists the intended loop equals the set definition and enables every listed name while the loop transcribed from the pinned code is refuted by TLC; normalisation is idempotent and the YAML round trip lossless on the model (a lossy writer is refuted). Code: 1,906 (quick) / 8,755 (thorough) TLC-exported cases - single and pairwise argument overrides, every ordered list, the head x backbone x preset grid, invalid inputs and constructor probes - run through get_*_config, TrainingJobConfig.to_sleap_nn_cfg, verify_training_cfg twice and an OmegaConf save/load; TLC recomputes the expected configuration and names the first failing clause.",
+            "Trusts TLC, schema defaults measured through OmegaConf.structured, the documented builder defaults; hydra CLI not covered.", "4 (C20)"),
 }
 ALL = ["C%02d" % i for i in range(1, 21)]
 NOT_YET = "check not built yet in this round (planned, see DESIGN.md section 4/8)"
